@@ -1059,40 +1059,55 @@ fn diverge(
 // ---------------------------------------------------------------------------------------------
 
 fn generate(r: &Report, max_len: u64, alphabet: u8, max_pending: u8) -> Vec<History> {
-    let found: Mutex<Vec<History>> = Mutex::new(Vec::new());
-    let seen_prov: Mutex<HashSet<[u8; 32]>> = Mutex::new(HashSet::new());
-    let stats = mc::bfs::bfs(
-        gen_init(),
-        (max_len as usize) * (max_pending as usize + 1),
-        |s: &GenState| s.rt.fingerprint(),
-        |_s, _p| {
-            let mut v: Vec<GenOp> = (0..alphabet).map(GenOp::Ingest).collect();
-            v.push(GenOp::Tick);
-            v
-        },
-        |s, op, _p| gen_step(s, op, max_len, max_pending),
-        |s: &GenState, path: &[GenOp]| {
-            if s.live.len() > 1 && matches!(path.last(), Some(GenOp::Tick)) {
-                let fp = mc::fp_debug(&s.rt.provenance);
-                if seen_prov.lock().unwrap().insert(fp) {
-                    found.lock().unwrap().push(History {
-                        ops: path.to_vec(),
-                        rt: s.rt.clone(),
-                        live: s.live.clone(),
+    // `WorldlineRuntime` is Send but not Sync (a host_test instrumentation Cell), so the
+    // generation BFS is a plain sequential loop; levels are expanded in op order => deterministic.
+    let mut found: Vec<History> = Vec::new();
+    let mut seen_prov: HashSet<[u8; 32]> = HashSet::new();
+    let mut seen: HashSet<[u8; 32]> = HashSet::new();
+    let init = gen_init();
+    seen.insert(mc::h(&init.rt.fingerprint()));
+    let mut states = 1u64;
+    let mut transitions = 0u64;
+    let mut ops: Vec<GenOp> = (0..alphabet).map(GenOp::Ingest).collect();
+    ops.push(GenOp::Tick);
+    let mut frontier: Vec<(GenState, Vec<GenOp>)> = vec![(init, Vec::new())];
+    let max_depth = (max_len as usize) * (max_pending as usize + 1);
+    for _ in 0..max_depth {
+        if frontier.is_empty() {
+            break;
+        }
+        if r.over_budget_frac(0.3) {
+            r.cap_hit("history generation BFS stopped by the wall cap");
+            break;
+        }
+        let mut next = Vec::new();
+        for (s, path) in &frontier {
+            for op in &ops {
+                let Some(s2) = gen_step(s, op, max_len, max_pending) else { continue };
+                transitions += 1;
+                if !seen.insert(mc::h(&s2.rt.fingerprint())) {
+                    continue;
+                }
+                states += 1;
+                let mut p2 = path.clone();
+                p2.push(*op);
+                if s2.live.len() > 1 && matches!(op, GenOp::Tick) && seen_prov.insert(mc::fp_debug(&s2.rt.provenance)) {
+                    found.push(History {
+                        ops: p2.clone(),
+                        rt: s2.rt.clone(),
+                        live: s2.live.clone(),
                     });
                 }
+                next.push((s2, p2));
             }
-        },
-        || r.over_budget_frac(0.3),
-    );
-    if stats.capped {
-        r.cap_hit("history generation BFS stopped by the wall cap");
+        }
+        frontier = next;
     }
-    r.add_states(stats.states);
-    r.add_transitions(stats.transitions);
-    r.counter("generation_states", stats.states);
-    r.counter("generation_transitions", stats.transitions);
-    found.into_inner().unwrap()
+    r.add_states(states);
+    r.add_transitions(transitions);
+    r.counter("generation_states", states);
+    r.counter("generation_transitions", transitions);
+    found
 }
 
 fn rebuild(ops: &[GenOp]) -> Option<History> {
@@ -1169,6 +1184,47 @@ fn main() {
         r.finish();
     }
 
+    if std::env::var("C07_PROF").is_ok() {
+        let h = rebuild(&gen_dec("I0 T I1 T I2 T")).unwrap();
+        let base = &h.live[0];
+        let p = &h.rt.provenance;
+        let t0 = std::time::Instant::now();
+        let mut tot = 0usize;
+        for _ in 0..200 {
+            let mut c = PlaybackCursor::new(CursorId([1; 32]), wl(1), base.root().warp_id, CursorRole::Reader, base, wt(4));
+            c.seek_to(wt(3), p, base).unwrap();
+            tot += c.current_tick().as_u64() as usize;
+        }
+        println!("fresh+seek3: {:?}/iter", t0.elapsed() / 200);
+        let mut c = PlaybackCursor::new(CursorId([1; 32]), wl(1), base.root().warp_id, CursorRole::Reader, base, wt(4));
+        c.seek_to(wt(3), p, base).unwrap();
+        let t0 = std::time::Instant::now();
+        for _ in 0..200 {
+            tot += format!("{c:?}").len();
+        }
+        println!("debug cursor: {:?}/iter len {}", t0.elapsed() / 200, format!("{c:?}").len());
+        let t0 = std::time::Instant::now();
+        for _ in 0..200 {
+            tot += format!("{:?}", c.materialized_state().warp_state()).len();
+        }
+        println!("debug warp_state: {:?}/iter len {}", t0.elapsed() / 200, format!("{:?}", c.materialized_state().warp_state()).len());
+        let t0 = std::time::Instant::now();
+        for _ in 0..200 {
+            tot += c.materialized_state().clone().current_tick().as_u64() as usize;
+        }
+        println!("clone state: {:?}/iter", t0.elapsed() / 200);
+        let t0 = std::time::Instant::now();
+        for _ in 0..200 {
+            tot += c.current_state_root()[0] as usize;
+        }
+        println!("state_root: {:?}/iter", t0.elapsed() / 200);
+        let t0 = std::time::Instant::now();
+        for _ in 0..200 {
+            tot += mc::h(format!("{c:?}").as_bytes())[0] as usize;
+        }
+        println!("debug+hash: {:?}/iter {tot}", t0.elapsed() / 200);
+        std::process::exit(0);
+    }
     let max_len: u64 = r.pick(3, 5);
     let alphabet: u8 = r.pick(4, 5);
     let cfg = Cfg {
@@ -1189,33 +1245,40 @@ fn main() {
     // Analyse in deterministic chunks so a wall cap cuts at a history boundary.
     let mut done = 0usize;
     let mut expected_forks = 0u64;
-    for chunk in hs.chunks(32) {
+    let total = hs.len();
+    let max_hist_len = hs.iter().map(|h| h.live.len()).max().unwrap_or(0);
+    let mut rest = hs;
+    while !rest.is_empty() {
+        let take = rest.len().min(32);
+        let chunk: Vec<History> = rest.drain(..take).collect();
         if r.over_budget_frac(0.9) {
             r.cap_hit(&format!(
-                "analysed {done} of {} histories (shortest first) before the wall cap",
-                hs.len()
+                "analysed {done} of {total} histories (shortest first) before the wall cap"
             ));
             break;
         }
-        let outs: Vec<Out> = chunk.par_iter().map(|h| analyze(h, cfg)).collect();
-        for (h, o) in chunk.iter().zip(outs) {
-            let n = (h.live.len() - 1) as u64;
+        let k = chunk.len();
+        let outs: Vec<(u64, Out)> = chunk
+            .into_par_iter()
+            .map(|h| ((h.live.len() - 1) as u64, analyze(&h, cfg)))
+            .collect();
+        for (n, o) in outs {
             expected_forks += 2 * n * (1u64 << (n + 1));
             merge(&r, o);
         }
-        done += chunk.len();
+        done += k;
     }
     r.counter("histories_analysed", done as u64);
 
     // vacuity guards
-    r.guard("histories_of_max_length_generated", hs.iter().any(|h| h.live.len() as u64 == max_len + 1));
+    r.guard("histories_of_max_length_generated", max_hist_len as u64 == max_len + 1);
     r.guard("at_least_4_distinct_live_states", distinct_roots.len() >= 4);
     r.guard("interior_checkpoint_subsets_used", r.counter_value("checkpoint_subsets_with_interior_checkpoint") > 0);
     r.guard("forward_seek_with_checkpoint_strictly_inside", r.counter_value("forward_seek_with_checkpoint_strictly_inside") > 0);
     r.guard("backward_seek_with_checkpoint_strictly_inside", r.counter_value("backward_seek_with_checkpoint_strictly_inside") > 0);
     r.guard("backward_seeks_performed", r.counter_value("backward_seeks") > 0);
     r.guard("backward_seek_restoring_from_checkpoint", r.counter_value("backward_seek_restoring_from_checkpoint") > 0);
-    r.guard("forks_at_every_tick_of_every_history", done < hs.len() || r.counter_value("forks") == expected_forks);
+    r.guard("forks_at_every_tick_of_every_history", done < total || r.counter_value("forks") == expected_forks);
     r.guard("forks_with_copied_checkpoints", r.counter_value("forks_with_copied_checkpoints") > 0);
     r.guard("diverged_children_searched", r.counter_value("diverged_children_searched") > 0);
     r.guard("typed_error_history_unavailable_seen", r.outcome_count("typed_error:HistoryUnavailable") > 0);
